@@ -29,6 +29,7 @@ type c15Op struct {
 	Meta       string      `json:",omitempty"` // "", "str:<s>", "int", "nil"
 	Typed      bool        `json:",omitempty"` // HandlerType is a real interface with a method
 	BadHandler bool        `json:",omitempty"` // handler does not implement HandlerType (only with Typed)
+	NilHandler bool        `json:",omitempty"` // handler is a nil pointer of the right type (stateless implementations; grpc.Server accepts it)
 }
 
 type c15Case struct {
@@ -197,6 +198,9 @@ func propC15(c c15Case) *Outcome {
 			h = &c15BadSig{id: i}
 		case op.Typed && op.BadHandler:
 			h = &c15Bad{id: i}
+		case op.NilHandler:
+			h = (*c15Good)(nil)
+			o.class("typed-nil-handler")
 		default:
 			h = &c15Good{id: i}
 		}
@@ -248,6 +252,7 @@ func genC15(t *rapid.T) c15Case {
 			op.Meta = rapid.SampledFrom([]string{"", "int", "file.proto", "x/y.proto"}).Draw(t, "meta")
 			op.Typed = rapid.Bool().Draw(t, "typed")
 			op.BadHandler = op.Typed && rapid.IntRange(0, 3).Draw(t, "bad") == 0
+			op.NilHandler = !op.BadHandler && rapid.IntRange(0, 5).Draw(t, "nilhandler") == 0
 		}
 		c.Ops = append(c.Ops, op)
 	}
